@@ -285,7 +285,8 @@ class Tle:
 
         orbit = orbit.copy(form="TLE", frame="TEME")
 
-        date = orbit.date.datetime
+        # TLE epochs are expressed in UTC
+        date = orbit.date.change_scale("UTC").datetime
         i, Ω, e, ω, M, n = orbit
 
         line1 = "1 {norad_id:0>5}U {cospar_id:<8} {date:%y}{day:012.8f} {ndot:>10} {ndotdot:>8} {bstar:>8} 0 {elnb:>4}".format(
